@@ -1,10 +1,13 @@
 #!/bin/bash
-# usage: tools/try_seed.sh <patch.diff> <prop> [<prop>...]  -- applies the patch to /repo, runs the checks, reverts
+# usage: tools/try_seed.sh <patch.diff> <prop> [<prop>...]
+# applies the patch to a scratch copy of /repo's HEAD (outside /repo and /verif), runs the checks on it, removes it
 set -u
 P=$1; shift
-cd /repo && git apply "$P" || { echo "patch does not apply"; exit 9; }
+S=/var/tmp/scr/try_$$
+mkdir -p /var/tmp/scr && rm -rf $S && git -C /repo worktree add -q --detach $S HEAD || exit 9
+( cd $S && git apply "$P" ) || { echo "patch does not apply"; git -C /repo worktree remove --force $S; exit 9; }
 for prop in "$@"; do
-  cd /verif && timeout 1200 ./check $prop > /tmp/try_seed_$prop.log 2>&1; code=$?
+  cd /verif && PYVC_REPO=$S timeout 1200 ./check $prop > /tmp/try_seed_$prop.log 2>&1; code=$?
   echo "== $prop exit=$code"; grep -E "^VIOLATION|^  failed|^  bounded|^UNDEC|^OUT-OF|^C[0-9]+:" /tmp/try_seed_$prop.log | sed 's/#[0-9]*//' | sort | uniq -c | cut -c1-260 | head -8
 done
-cd /repo && git checkout -- . && git status --short | head -3
+git -C /repo worktree remove --force $S
